@@ -5,7 +5,7 @@ from .. import gen as G, impl as I, oracle as O, util as U
 from ..core import Fail
 
 PID = "C15"
-RULE = ("closed polygonal curves (int/Fraction/float) and curved curves (circle arcs, quadratic/cubic pieces, float) x "
+RULE = ("closed polygonal curves (int/Fraction/float), exact curved curves (Fraction control points, sides of degree 1..3: result against the model, integrals x^a y^b dy unchanged exactly, pieces retrace exactly) and float curved curves (circle arcs, quadratic/cubic pieces) x "
         "multisets of (segment, parameter) pairs: parameters k/100, parameters at / within 1e-6 of 0 and 1, repeated and "
         "nearly equal parameters (0, 1e-17, 1e-12, 5e-7, 1e-5 apart; F15/F15c repaired), repeated split/clean sequences; "
         "a parabola arc, at the origin and up to 300 units away, split at two parameters 0.002..0.05 apart (short pieces get degree-reduced: junctions on the curve within 1e-6, F25 repaired); "
@@ -13,8 +13,9 @@ RULE = ("closed polygonal curves (int/Fraction/float) and curved curves (circle 
         "original after clean; non-trivial = at least one parameter survives the 1e-6 filter; distinct = SHA-1")
 PROOF_STATUS = ("Props/C15.v: retrace, junctions at the split parameters, no zero-length piece, area / winding number / "
                 "closedness unchanged, split TOTAL on valid requests (repeated and nearly equal parameters merged, used "
-                "parameters >= 1e-6 apart), clean idempotent and complete, all for straight segments and rational data; "
-                "F15, F15c (=F23), F25 repaired")
+                "parameters >= 1e-6 apart), clean idempotent and complete, all for straight segments and rational data; curved "
+                "segments of degree <= 6: pieces and cleaned pieces retrace (positions and velocities), every split keeps the "
+                "area and every boundary integral the library computes (C15_curved_*); F15, F15c (=F23), F25 repaired")
 
 
 def _nodes(rng, n, k):
@@ -61,6 +62,26 @@ def cases(ctx):
         if i % 4 == 3:
             num = "float"
         yield {"k": "poly", "vs": vs, "idx": idx, "nodes": nodes, "num": num, "twice": twice}
+    # curved closed curves with EXACT (Fraction) control points, sides of degree 1..3, cut at rational parameters
+    # (several on one segment too): the library's result against the model's, and the conclusion of
+    # C15_curved_split_area / C15_curved_split_integrals -- area and every integral x^a y^b dy with a+b <= 3 unchanged
+    for i in range(ctx.n(10, 200)):
+        k = rng.randint(3, 5)
+        vs = G.ccw(G.star_polygon(rng, n=k, R=8))
+        j = []
+        for a_, b_ in G.poly_edges(vs):
+            d = rng.choice([1, 2, 3, 3])
+            mid = [((1 - F(t, d)) * a_[0] + F(t, d) * b_[0] + F(rng.randint(-4, 4), 4),
+                    (1 - F(t, d)) * a_[1] + F(t, d) * b_[1] + F(rng.randint(-4, 4), 4)) for t in range(1, d)]
+            j.append([a_] + mid + [b_])
+        nn = rng.randint(1, 4)
+        idx = [rng.randrange(k) for _ in range(nn)]
+        if nn >= 3:
+            idx[1] = idx[0]
+            idx[2] = idx[0]
+        nodes = [F(rng.randint(2, 18), 20) + F(rng.choice([0, 1, -1]), 60) for _ in range(nn)]
+        if len(set(zip(idx, nodes))) == nn:
+            yield {"k": "kcurved", "j": j, "idx": idx, "nodes": nodes}
     for i in range(ctx.n(6, 80)):
         yield {"k": "circle", "nd": rng.choice([4, 8, 16]), "r": rng.choice([1.0, 2.5]),
                "idx": [rng.randrange(4) for _ in range(3)], "nodes": [rng.choice([0.25, 0.5, 0.375, 0.7]) for _ in range(3)]}
@@ -107,6 +128,61 @@ def check(ctx, case):
                 if abs(float(q[1]) - oy - h * (1 - ((float(q[0]) - ox) / a) ** 2)) > lim:
                     fails.append(Fail(kind="O", what="piece leaves the parabola", impl=[float(q[0]), float(q[1])]))
         ctx.count("cap:reduced" if any(sg.degree == 1 for sg in segs[1:]) else "cap:kept")
+        return fails
+    if case["k"] == "kcurved":
+        j, idx, nodes = case["j"], case["idx"], case["nodes"]
+        J = I.mk_jordan(j, "frac")
+        ints = ((1, 0), (2, 0), (1, 1), (0, 3), (3, 0), (1, 2))
+        before = [I.num(I.IntegrateJordan.vertical(J, ex, ey)) for ex, ey in ints]
+        r0 = I.ROUNDINGS[0]
+        ri = I.outcome(lambda: (J.split(list(idx), list(nodes)), I.jordan_data(J))[1])
+        rm = ctx.model.split(j, idx, nodes)
+        ctx.count("exact curved split: %d cut(s), degrees %s" % (len(idx), "".join(sorted({str(len(sg) - 1) for sg in j}))))
+        if I.ROUNDINGS[0] != r0:
+            ctx.set_aside += 1
+            return fails
+        if ri[0] != "ok":
+            fails.append(Fail(kind="O", what="split raised on a valid request (exact curved curve)", impl=ri))
+            return fails
+        after = [I.num(I.IntegrateJordan.vertical(J, ex, ey)) for ex, ey in ints]
+        if rm[0] == "ok" and len(rm[1]) == len(ri[1]) and [len(sg) for sg in rm[1]] != [len(sg) for sg in ri[1]]:
+            # the library degree-reduced a piece by least squares within its 1e-9 tolerance although the piece is not
+            # EXACTLY reducible (the property allows it; the model's clean reduces exact cases only): outside the exact
+            # model, judged at the property's tolerance
+            ctx.count("exact curved split: a piece degree-reduced within 1e-9 (allowed; outside the exact model)")
+            ctx.set_aside += 1
+            if any(abs(x - y) > F(1, 10 ** 4) * max(1, abs(x)) for x, y in zip(before, after)):
+                fails.append(Fail(kind="O", what="split with an inexact degree reduction changed a boundary integral by more than 1e-4 relative",
+                                  impl=[str(x) for x in after], expected=[str(x) for x in before]))
+            return fails
+        ctx.k_cases += 1
+        if ri == rm:
+            ctx.k_agreed += 1
+        else:
+            fails.append(Fail(kind="K", what="split of an exact curved curve differs from the model's", impl=str(ri)[:300], model=str(rm)[:300]))
+        if before != after:
+            fails.append(Fail(kind="O", what="split changed the area or a boundary integral x^a y^b dy of an exact curved curve "
+                              "(conclusion of C15_curved_split_integrals)", impl=[str(x) for x in after], expected=[str(x) for x in before]))
+        segs = J.segments
+        for i_, sg in enumerate(segs):
+            if sg.ctrlpoints[-1] is not segs[(i_ + 1) % len(segs)].ctrlpoints[0]:
+                fails.append(Fail(kind="O", what="junction not shared after curved split", i=i_))
+        # every piece retraces its part of the original segment (positions at three parameters, exact)
+        orig = I.mk_jordan(j, "frac")
+        cuts = {}
+        for a_, u_ in zip(idx, nodes):
+            cuts.setdefault(a_, []).append(u_)
+        pos = 0
+        for a_, sg0 in enumerate(orig.segments):
+            ts = [F(0)] + sorted(cuts.get(a_, [])) + [F(1)]
+            for t0, t1 in zip(ts, ts[1:]):
+                piece = segs[pos]
+                pos += 1
+                for x in (F(0), F(1, 3), F(1)):
+                    p_, q_ = piece(x), sg0(t0 + x * (t1 - t0))
+                    if (F(p_[0]), F(p_[1])) != (F(q_[0]), F(q_[1])):
+                        fails.append(Fail(kind="O", what="piece does not retrace its part of the curved segment (exact)", seg=a_, t0=t0, t1=t1))
+                        break
         return fails
     if case["k"] == "circle":
         S = I.Primitive.circle(case["r"], (0, 0), case["nd"])
